@@ -18,6 +18,9 @@ pub struct Scenario {
     /// endpoints answer packets for unknown connections with stateless resets (off by default, as in the library)
     #[serde(default)]
     pub stateless_reset: bool,
+    /// (client, at_ms): the client's socket moves to a fresh address (NAT rebinding)
+    #[serde(default)]
+    pub rebinds: Vec<(u8, u32)>,
 }
 
 #[derive(Clone, Copy, Debug, Hash, PartialEq, Eq, Serialize, Deserialize)]
@@ -62,6 +65,22 @@ pub struct EndpointCfg {
     pub cc: Cc,
     /// (base, initial, max) MTU incl. 28 bytes of IPv4+UDP headers (minimum 1228)
     pub mtu: (u16, u16, u16),
+    /// connection-id provider: length (4..=20, 0 = 16), lifetime in seconds (>= 60), handshake-CID rotation
+    #[serde(default)]
+    pub cid: CidCfg,
+}
+
+#[derive(Clone, Copy, Debug, Hash, PartialEq, Eq, Serialize, Deserialize)]
+pub struct CidCfg {
+    pub len: u8,
+    pub lifetime_s: Option<u16>,
+    pub rotate_handshake: bool,
+}
+
+impl Default for CidCfg {
+    fn default() -> Self {
+        CidCfg { len: 16, lifetime_s: None, rotate_handshake: true }
+    }
 }
 
 /// `None` = leave the library default
@@ -209,7 +228,7 @@ impl Default for ReaderScript {
 
 impl Default for EndpointCfg {
     fn default() -> Self {
-        EndpointCfg { limits: LimitsCfg::default(), cc: Cc::Cubic, mtu: (1228, 1228, 1500) }
+        EndpointCfg { limits: LimitsCfg::default(), cc: Cc::Cubic, mtu: (1228, 1228, 1500), cid: CidCfg::default() }
     }
 }
 
